@@ -135,7 +135,10 @@ where
                     Ok(Some(infos)) => infos,
                 };
                 for info in infos {
-                    if reinsertion_picker.filter(&statistics, info.hash, info.addr.len as _).is_admitted() {
+                    // Only the current version of an entry is worth reinserting. A superseded copy that still lies in
+                    // this block must not be written again: it could be indexed later, after the newer version is gone.
+                    let current = indexer.get(info.hash).map(|addr| addr.sequence) == Some(info.addr.sequence);
+                    if current && reinsertion_picker.filter(&statistics, info.hash, info.addr.len as _).is_admitted() {
                         let buf = IoSliceMut::new(bits::align_up(PAGE, info.addr.len as _));
                         let (buf, res) = block.read(Box::new(buf), info.addr.offset as _).await;
                         if let Err(e) = res {
